@@ -50,6 +50,43 @@ def mutable_ids(v, acc, path=''):
                 mutable_ids(getattr(v, name), acc, f"{path}.{name}")
 
 
+def ident_seq(live, names):
+    """which (packet, path) pairs are the SAME object: a depth-first walk over the declared attributes of every live packet
+    (get_fields order, lists by index): -1 immutable, -2 not set, else the number of the object (numbered by first
+    occurrence); an object met again is named but not entered again; -3 starts a packet, -4 a name that is not live"""
+    from bisturi.packet import Packet
+    ids, seen, out = {}, set(), []
+
+    def walk(v):
+        if isinstance(v, (list, Packet)):
+            out.append(ids.setdefault(id(v), len(ids)))
+            if id(v) in seen:
+                return
+            seen.add(id(v))
+            if isinstance(v, list):
+                for x in v:
+                    walk(x)
+            else:
+                for name, _, _, _ in v.get_fields():
+                    if name.startswith('_shift_to_'):
+                        continue
+                    try:
+                        x = getattr(v, name)
+                    except AttributeError:
+                        out.append(-2)
+                        continue
+                    walk(x)
+        else:
+            out.append(-1)
+    for n in names:
+        if n in live:
+            out.append(-3)
+            walk(live[n])
+        else:
+            out.append(-4)
+    return out
+
+
 def snapshot(live):
     out = {}
     for k, p in live.items():
@@ -73,7 +110,10 @@ def set_path(p, path, value):
 
 def run_history(h, ns, g=None, d=None):
     live, report = {}, []
-    assigned = set()          # ids of objects the USER assigned to two places (allowed sharing)
+    h_names = sorted({op[1] for op in h if op[0] in ('new', 'parse', 'reparse')}, key=lambda n: int(n[1:]))
+    shared_by_user = set()    # ids of objects the USER put in two places (allowed sharing)
+    links = []                # groups of packets linked that way
+    observations = []
     for k, op in enumerate(h):
         before = snapshot(live)
         MON[0] = True
@@ -88,19 +128,86 @@ def run_history(h, ns, g=None, d=None):
                 live[op[1]] = type(src).unpack(src.pack())
             elif op[0] == 'set':
                 set_path(live[op[1]], op[2], build(op[3], ns))
+            elif op[0] == 'share':
+                # the user puts an object taken from one live packet into another place: dst.path = src.path
+                obj = live[op[3]]
+                for step in op[4]:
+                    obj = obj[step] if isinstance(step, int) else getattr(obj, step)
+                set_path(live[op[1]], op[2], obj)
+                shared_by_user.add(id(obj))
+            elif op[0] == 'append':
+                obj = live[op[1]]
+                for step in op[2]:
+                    obj = obj[step] if isinstance(step, int) else getattr(obj, step)
+                obj.append(build(op[3], ns))
             elif op[0] == 'pack':
                 first = live[op[1]].pack()
                 fields_before = json.dumps(canon(live[op[1]]), sort_keys=True)
                 second = live[op[1]].pack()
                 if first != second or json.dumps(canon(live[op[1]]), sort_keys=True) != fields_before:
                     report.append(dict(step=k, op=op, kind='pack-impure', first=first.hex(), second=second.hex()))
+            done = 1
         except Exception as e:
+            done = 0
             report.append(dict(step=k, op=op, kind='exc', exc=type(e).__name__))
         MON[0] = False
+        names = h_names
+        observations.append([done] + ident_seq(live, names))
         after = snapshot(live)
+        if op[0] == 'share':
+            # packets the user linked by putting one object in both may from now on change together
+            a, b = op[1], op[3]
+            grp = {a, b}
+            for g2 in [x for x in links if x & grp]:
+                grp |= g2
+                links.remove(g2)
+            links.append(grp)
         for j in before:
             if j != op[1] and j in after and before[j] != after[j]:
+                if any(op[1] in g2 and j in g2 for g2 in links):
+                    continue
                 report.append(dict(step=k, op=op, kind='interference', victim=j, before=before[j], after=after[j]))
+        # objects below something the user put in two places may be shared
+        allowed = {}
+        for j, p in live.items():
+            acc = {}
+            mutable_ids(p, acc, j)
+            for i2 in acc:
+                if i2 in shared_by_user:
+                    allowed[i2] = True
+        below = set()
+
+        def mark(v):
+            from bisturi.packet import Packet
+            if isinstance(v, (list, Packet)):
+                if id(v) in below:
+                    return
+                below.add(id(v))
+                if isinstance(v, list):
+                    for x in v:
+                        mark(x)
+                else:
+                    for name, _, _, _ in v.get_fields():
+                        if hasattr(v, name):
+                            mark(getattr(v, name))
+        for j, p in live.items():
+            stack = [p]
+            seen_local = set()
+            while stack:
+                v = stack.pop()
+                if id(v) in seen_local:
+                    continue
+                seen_local.add(id(v))
+                if id(v) in shared_by_user:
+                    mark(v)
+                    continue
+                from bisturi.packet import Packet
+                if isinstance(v, list):
+                    stack.extend(x for x in v if isinstance(x, (list, Packet)))
+                elif isinstance(v, Packet):
+                    for name, _, _, _ in v.get_fields():
+                        if hasattr(v, name) and isinstance(getattr(v, name), (list, Packet)):
+                            stack.append(getattr(v, name))
         ids = {}
         for j, p in live.items():
             acc = {}
@@ -109,12 +216,12 @@ def run_history(h, ns, g=None, d=None):
                 ids.setdefault(i, []).extend(paths)
         for i, paths in ids.items():
             owners = {q.split('.')[0].split('[')[0] for q in paths}
-            if len(owners) > 1:
+            if len(owners) > 1 and i not in below:
                 report.append(dict(step=k, op=op, kind='shared-object', paths=sorted(paths)[:4]))
                 break
-    if g is not None and g.get('solo'):
+    if g is not None and g.get('solo') and not links:
         solo_check(live, g, d, report, h)
-    return report
+    return report, observations
 
 
 _WORLD = [0]
@@ -200,7 +307,9 @@ if __name__ == '__main__':
             if name.startswith(g['modname'] + '_'):
                 ns.update({n: v for n, v in vars(m).items() if not n.startswith('__')})
         del WRITES[:]
-        reports = [run_history(h, ns, g, d) for h in g['histories']]
+        both = [run_history(h, ns, g, d) for h in g['histories']]
+        reports = [b[0] for b in both]
+        observations = [b[1] for b in both]
         th = run_threads(g['threads'], ns) if g.get('threads') else None
-        out['groups'].append(dict(defs=res['defs'], reports=reports, writes=sorted(set(map(tuple, WRITES))), threads=th))
+        out['groups'].append(dict(defs=res['defs'], reports=reports, observations=observations, writes=sorted(set(map(tuple, WRITES))), threads=th))
     json.dump(out, open(sys.argv[2], 'w'))
